@@ -800,3 +800,59 @@ def new_quantity_summary(I, ctx, opfn, minus):
         ok = z3.And(ok, z3.Not(zero))
     out.append(ret("result", ok, build))
     return out
+
+
+# ------------------------------------------------------------------------------------------------
+@register
+class ScalarPowSpec(FunctionSpec):
+    """Scalar ** n for n = 1..6: the n-fold product a * a * ... * a (C04: 'a**n for n >= 1 is the n-fold
+    product'), stated relationally against the multiplication operator, which has its own contract: same
+    composing map, same caption, same value; the receiver is untouched."""
+
+    fq = SC + ".__pow__"
+    props = ("C04", "C06", "C13")
+    callees = BASE_CALLEES + (UDB + ":UnitDatabase._ConvertWithExp",)
+    probe = "scalar_pow"
+
+    def variants(self, tier):
+        ns = (1, 2, 3, 4, 5, 6) if tier != "thorough" else (1, 2, 3, 4, 5, 6, 7, 8, 9)
+        return [(k, n) for k in ("simple", "derived1") for n in ns]
+
+    def setup(self, I, variant):
+        kind, n = variant
+        db, R, st, qa, qb = arith_setup(I, kind, "empty")
+        a = scalar_obj(I, db, qa, tag="a")
+
+        def run(I):
+            p = I.binop(ast.Pow(), a, SNum(n))
+            ref = a
+            for _ in range(n - 1):
+                ref = I.binop(ast.Mult(), ref, a)
+            return STuple([p, ref])
+
+        return {"f": harness(run), "args": [], "R": R, "st": st, "db": db, "qa": qa, "qb": qb, "a": a, "n": n, "snaps": (quantity_snapshot(qa), quantity_snapshot(qb)), "vsnap": dict(a.o.fields)}
+
+    def cases(self, I, ctx):
+        def chk(I, res):
+            p, ref = res.items
+            for x in (p, ref):
+                if not (isinstance(x, SRef) and isinstance(x.o, HObj) and getattr(x.o.cls, "name", "") == "Scalar"):
+                    return F
+            qp, qr = p.o.fields["_quantity"], ref.o.fields["_quantity"]
+            ep, er = entries(qp), entries(qr)
+            if len(ep) != len(er):
+                return F
+            vp, vr = p.o.fields["_value"], ref.o.fields["_value"]
+            if not (isinstance(vp, SNum) and isinstance(vr, SNum)):
+                return F
+            return z3.And(same_entries(ep, er), to_z3b(I.equal(caption_of(qp), caption_of(qr))), vp.real() == vr.real())
+
+        return [ret("n-fold-product", T, props=("C04", "C06"), check=chk)]
+
+    def extra_obligations(self, I, ctx, outcome):
+        return [("frame[receiver unchanged]", ("C13",), to_z3b(value_unchanged(I, ctx["a"], ctx["vsnap"])))] + arith_frames(I, ctx)
+
+    def allowed_write(self, I, ctx, obj, what):
+        if getattr(obj, "region", "") == "quantity" and what[1] in LAZY_SLOTS:
+            return True
+        return FunctionSpec.allowed_write(self, I, ctx, obj, what)
